@@ -13,6 +13,7 @@ static std::vector<Guard> g_guards;
 static uint64_t g_ar_threads = 0, g_ar_thread_blocks = 0, g_ar_full_events = 0, g_ar_bound_allocs = 0, g_ar_other_allocs = 0, g_ar_geoms = 0;
 static std::string g_geom;
 
+static uint64_t g_ar_tagged_heaps = 0;
 static void check_guards(const char* when) {
   for (auto& g : g_guards) for (size_t i = 0; i < g.len; i++) if (g.p[i] != g.v)
     vf_trip("outside-given-bounds", "C15", "%s: byte %zu of the canary zone %p next to a region given to mi_manage_os_memory_ex was changed to 0x%02x", when, i, (void*)g.p, g.p[i]);
@@ -48,10 +49,15 @@ static void make_arena(State& S, bool exclusive) {
     vf_trip("arena-area-outside-given", "C15", "mi_arena_area = [%p,+%zu) is not contained in the region [%p,+%zu) given to mi_manage_os_memory_ex", (void*)ab, asz, (void*)start, size);
   ArenaInfo ai; ai.id = id; ai.lo = (uintptr_t)ab; ai.hi = (uintptr_t)ab + asz; ai.given_lo = (uintptr_t)start; ai.given_hi = (uintptr_t)start + size; ai.exclusive = exclusive;
   S.arenas.push_back(ai);
-  mi_heap_t* h = mi_heap_new_in_arena(id);
+  // the heap bound to the arena: plain, or one that can be destroyed (such a heap must never adopt abandoned pages), and sometimes a second one with a heap tag
+  mi_heap_t* h = (vf_rng_chance(&S.rng, 1, 3) ? mi_heap_new_ex(0, true /* allow destroy */, id) : mi_heap_new_in_arena(id));
   if (h == nullptr) vf_trip("harness", "", "mi_heap_new_in_arena failed");
   HeapEnt e; e.h = h; e.alive = true; e.arena = (int)S.arenas.size() - 1;
   S.heaps.push_back(e);
+  if (vf_rng_chance(&S.rng, 1, 2)) {
+    mi_heap_t* ht = mi_heap_new_ex(1 + (int)vf_rng_below(&S.rng, 3), false, id);
+    if (ht != nullptr) { HeapEnt et; et.h = ht; et.alive = true; et.arena = (int)S.arenas.size() - 1; S.heaps.push_back(et); g_ar_tagged_heaps++; }
+  }
   g_ar_geoms++;
   char b[160]; snprintf(b, sizeof(b), "[arena#%zu blocks=%zu off=%zuK size=%zuK committed=%d excl=%d area=%zuMiB] ", S.arenas.size() - 1, nb, off / 1024, size / 1024, (int)committed, (int)exclusive, asz >> 20); g_geom += b;
 }
@@ -73,7 +79,7 @@ static size_t arena_size_gen(State& S) {
 // a thread with its own heap bound to arena j: allocates, then terminates with live blocks (its segments inside the arena are abandoned)
 static void thread_in_arena(State& S, int j) {
   struct TB { void* p; size_t n; };
-  std::vector<TB> out;
+  std::vector<TB> out, out_unbound;
   mi_arena_id_t id = S.arenas[j].id;
   uint64_t seed = vf_rng_next(&S.rng);
   uintptr_t lo = S.arenas[j].lo, hi = S.arenas[j].hi;
@@ -82,8 +88,14 @@ static void thread_in_arena(State& S, int j) {
   try {
     std::thread t([&]() {
       vf_rng_t r; vf_rng_seed(&r, seed);
-      mi_heap_t* h = mi_heap_new_in_arena(id);
+      const unsigned kind = (unsigned)vf_rng_below(&r, 4);
+      mi_heap_t* h = (kind == 0 ? mi_heap_new_ex(1 + (int)vf_rng_below(&r, 3), false, id) : kind == 1 ? mi_heap_new_ex(0, true, id) : mi_heap_new_in_arena(id));
       if (h == nullptr) return;
+      // some blocks from an UNBOUND heap with a heap tag as well: when they are adopted later they must not end up in a heap that is bound to an arena
+      if (vf_rng_chance(&r, 1, 2)) {
+        mi_heap_t* hu = mi_heap_new_ex(1 + (int)vf_rng_below(&r, 3), false, (mi_arena_id_t)0);
+        if (hu != nullptr) for (int i = 0; i < 20; i++) { size_t n = 1 + (size_t)vf_rng_below(&r, 3000); void* p = mi_heap_malloc(hu, n); if (p) { memset(p, 0x78, n); TB tb = { p, n }; out_unbound.push_back(tb); } }
+      }
       for (int i = 0; i < 60; i++) {
         size_t n = 1 + (size_t)vf_rng_below(&r, (i % 10 == 0) ? 300 * KiB : 4000);
         void* p = mi_heap_malloc(h, n);
@@ -105,6 +117,10 @@ static void thread_in_arena(State& S, int j) {
     t.join();
   } catch (const std::system_error& e) { vf_trip("harness", "", "cannot create a thread: %s", e.what()); }
   if (bad) vf_trip("outside-bound-arena", "C15", "a thread's arena-bound heap / default heap returned %p on the wrong side of exclusive arena #%d [%p,%p)", badp, j, (void*)lo, (void*)hi);
+  for (auto& tb : out_unbound) {
+    if (excl && (uintptr_t)tb.p >= lo && (uintptr_t)tb.p < hi) vf_trip("exclusive-arena-leaked", "C15", "a thread's unbound tagged heap returned %p inside exclusive arena #%d", tb.p, j);
+    out.push_back(tb);
+  }
   for (auto& tb : out) {
     size_t u = mi_usable_size(tb.p);
     vf::Blk* b = S.sm.add(tb.p, tb.n, u, -1, 0, 0, false, EP_heap_malloc);
@@ -127,11 +143,15 @@ void run_arena_profile(State& S) {
   S.sm.refutes_generic = "C15";
   S.cfg.threads = true;      // conservation uses the range form (blocks of terminated threads)
   S.cfg.tolerate_enomem = true;
+  S.cfg.tags_in_use = true;
   // some ordinary allocation first (so that the default heap has cached free spans), then the arenas
   for (int i = 0; i < 200; i++) do_alloc(S, EP_malloc, arena_size_gen(S) % (256 * KiB));
   int na = 1 + (int)vf_rng_below(&S.rng, 3);
   for (int j = 0; j < na; j++) make_arena(S, j == 0 ? true : vf_rng_chance(&S.rng, 2, 3));
   if (S.arenas.empty()) make_arena(S, true);
+  // unbound heaps with the heap tags used above (pages are adopted into a heap with a matching tag -- which must still be on the right side of every exclusive arena)
+  std::vector<int> unbound_tagged;
+  for (int tag = 1; tag <= 3; tag++) { mi_heap_t* hu = mi_heap_new_ex(tag, false, (mi_arena_id_t)0); if (hu) { HeapEnt eu; eu.h = hu; eu.alive = true; eu.arena = -1; S.heaps.push_back(eu); unbound_tagged.push_back((int)S.heaps.size() - 1); } }
   static const int bound_eps[] = { EP_heap_malloc, EP_heap_zalloc, EP_heap_calloc, EP_heap_mallocn, EP_heap_malloc_small, EP_heap_malloc_aligned, EP_heap_zalloc_aligned_at, EP_heap_strdup };
   static const int other_eps[] = { EP_malloc, EP_zalloc, EP_calloc, EP_malloc_small, EP_malloc_aligned, EP_new_nothrow, EP_strdup, EP_posix_memalign };
   for (S.op_index = 0; S.op_index < S.cfg.ops; S.op_index++) {
@@ -153,7 +173,9 @@ void run_arena_profile(State& S) {
     else if (r < 62 && !over) {
       int ep = other_eps[vf_rng_below(&S.rng, sizeof(other_eps) / sizeof(other_eps[0]))];
       S.cfg.size_cap = 4 * MiB;
+      if (!unbound_tagged.empty() && vf_rng_chance(&S.rng, 1, 3)) { S.force_heap = unbound_tagged[vf_rng_below(&S.rng, unbound_tagged.size())]; ep = (vf_rng_chance(&S.rng, 1, 2) ? EP_heap_malloc : EP_heap_zalloc); }
       vf::Blk* b = do_alloc(S, ep, arena_size_gen(S) % (3 * MiB));
+      S.force_heap = -1;
       S.cfg.size_cap = 0;
       if (b) g_ar_other_allocs++;
     }
